@@ -256,8 +256,10 @@ class MechCorr:
         if f == ["obs"]:
             self._emit("obs", impl_state(m, self.intern), k)
             return
-        if not all(isinstance(x, str) and x and not re.search(r"\s", x) for x in f):
-            # names with blanks, None, ... of the malformed stream cannot travel through the line protocol
+        if not all(isinstance(x, str) and x and x.isascii() and not re.search(r"\s", x) for x in f):
+            # names with blanks, None, ... of the malformed stream cannot travel through the line protocol; the name
+            # kernel of the model (Names.isValidName) is the ASCII part of str.isidentifier(): non-ASCII identifiers,
+            # which the code accepts, are outside the model
             if acc:
                 self.alive = False
             return
